@@ -147,6 +147,11 @@ func (g *glAnalysis) readOnly(v ssa.Value, why *string, depth int) bool {
 			}
 		case *ssa.Call:
 			if x.Call.Value == v {
+				if x.Call.IsInvoke() && !isErrType(v.Type()) {
+					// a method of the shared object is invoked through an interface: it may change it
+					*why = "method " + x.Call.Method.Name() + " invoked on the shared object at " + g.c.InstrPos(x)
+					return false
+				}
 				continue // calling the function value
 			}
 			if b, ok := x.Call.Value.(*ssa.Builtin); ok {
@@ -196,12 +201,32 @@ func (g *glAnalysis) readOnly(v ssa.Value, why *string, depth int) bool {
 				if _, isAlloc := x.Addr.(*ssa.Alloc); isAlloc {
 					// stored in a local: follow loads of the local
 					al := x.Addr.(*ssa.Alloc)
-					for _, r2 := range *al.Referrers() {
-						if u, ok := r2.(*ssa.UnOp); ok && u.Op == token.MUL {
-							if !g.readOnly(u, why, depth+1) {
-								return false
+					// loads of the local and of its fields / elements see the shared object
+					var follow func(addr ssa.Value, d int) bool
+					follow = func(addr ssa.Value, d int) bool {
+						if d > 6 || addr.Referrers() == nil {
+							return true
+						}
+						for _, r2 := range *addr.Referrers() {
+							switch y := r2.(type) {
+							case *ssa.UnOp:
+								if y.Op == token.MUL && !immutableType(y.Type()) && !g.readOnly(y, why, depth+1) {
+									return false
+								}
+							case *ssa.FieldAddr:
+								if !follow(y, d+1) {
+									return false
+								}
+							case *ssa.IndexAddr:
+								if y.X == addr && !follow(y, d+1) {
+									return false
+								}
 							}
 						}
+						return true
+					}
+					if !follow(al, 0) {
+						return false
 					}
 					continue
 				}
